@@ -590,7 +590,8 @@ theorem S_closed (g : Graph) (d : Doc) (hcat : d.cat = CatOpts.none)
   cases hS with
   | cat =>
     have hd : catalogDict d = .dict (dictOfList [(kPages, .ref d.rootId 0), (kType, .name nCatalog)]) := by
-      simp [catalogDict, hcat, CatOpts.none, optEnt, CatalogRules.namesDict, dictOfList]
+      simp [catalogDict, CatalogRules.catRows, CatalogRules.rowsObjL, hcat, CatOpts.none, CatalogRules.CatExtra.none,
+        optEnt, CatalogRules.namesDict, CatalogRules.namesRows, dictOfList]
     rw [hd]
     refine conf_dict g shippedCtx f _ .null shippedCat _ _ _ F_dicts.1 (value_nonref g _ rfl) rfl rfl
       F_nodup.1 F_req.1 (hval_list f _ _ ?_)
@@ -759,7 +760,7 @@ theorem sub_agree (d : Doc) (hcat : d.cat = CatOpts.none) (hnd : (d.rootId :: d.
       (∀ id ∈ n.ids, Graph.lookup d.graph (id, 0) = Graph.lookup (n.defs p) (id, 0)) ∧ n.ids.Nodup ∧
       (∀ id ∈ n.ids, id ∈ d.kids.ids) := by
   have hg : d.graph = ((d.rootId, 0), nodeDict d.count d.kids none) :: d.kids.defs d.rootId := by
-    simp [Doc.graph, hcat, CatOpts.none, CatalogRules.optDef]
+    simp [Doc.graph, hcat, CatOpts.none, CatalogRules.CatExtra.none, CatalogRules.optDef]
   simp only [List.nodup_cons] at hnd
   intro b p n h
   induction h with
@@ -790,26 +791,55 @@ theorem nodup_of_nodupB : ∀ l : List Nat, CatalogRules.nodupB l = true → l.N
       decide_eq_false_iff_not] at h
     exact List.nodup_cons.mpr ⟨h.1, nodup_of_nodupB t h.2⟩
 
+def PageExtra.isNone (x : CatalogRules.PageExtra) : Bool :=
+  x.aa.isNone && x.af.isNone && x.artBox.isNone && x.b.isNone && x.bleedBox.isNone && x.boxColorInfo.isNone &&
+    x.contents.isNone && x.dPart.isNone && x.dur.isNone && x.group.isNone && x.metadata.isNone &&
+    x.outputIntents.isNone && x.pz.isNone && x.pieceInfo.isNone && x.presSteps.isNone && x.resources.isNone &&
+    x.separationInfo.isNone && x.structParents.isNone && x.templateInstantiated.isNone && x.thumb.isNone &&
+    x.trans.isNone && x.trimBox.isNone && x.vp.isNone
+
+def CatExtra.isNone (x : CatalogRules.CatExtra) : Bool :=
+  x.aa.isNone && x.af.isNone && x.acroForm.isNone && x.collection.isNone && x.dPartRoot.isNone && x.dss.isNone &&
+    x.dests.isNone && x.extensions.isNone && x.legal.isNone && x.markInfo.isNone && x.ocProperties.isNone &&
+    x.outputIntents.isNone && x.perms.isNone && x.pieceInfo.isNone && x.requirements.isNone && x.spiderInfo.isNone &&
+    x.structTreeRoot.isNone && x.threads.isNone && x.uri.isNone && x.viewerPreferences.isNone && x.ap.isNone &&
+    x.alternatePresentations.isNone && x.ids.isNone && x.javaScript.isNone && x.pagesTree.isNone &&
+    x.renditions.isNone && x.templates.isNone && x.urls.isNone
+
 def PageOpts.isNone (o : PageOpts) : Bool :=
   o.annots.isNone && o.cropBox.isNone && o.id.isNone && o.lastModified.isNone && o.mediaBox.isNone &&
-    o.rotate.isNone && o.tabs.isNone && o.userUnit.isNone
+    o.rotate.isNone && o.tabs.isNone && o.userUnit.isNone && PageExtra.isNone o.x
 
 def CatOpts.isNone (c : CatOpts) : Bool :=
   c.lang.isNone && c.metadata.isNone && c.dests.isNone && c.embeddedFiles.isNone && c.needsRendering.isNone &&
     c.openAction.isNone && c.outlines.isNone && c.pageLabels.isNone && c.pageLayout.isNone && c.pageMode.isNone &&
-    c.version.isNone
+    c.version.isNone && CatExtra.isNone c.x
+
+theorem PageExtra.eq_none (x : CatalogRules.PageExtra) (h : PageExtra.isNone x = true) :
+    x = CatalogRules.PageExtra.none := by
+  cases x
+  simp only [PageExtra.isNone, Bool.and_eq_true, Option.isNone_iff_eq_none] at h
+  simp only [CatalogRules.PageExtra.none, CatalogRules.PageExtra.mk.injEq]
+  simp [h]
+
+theorem CatExtra.eq_none (x : CatalogRules.CatExtra) (h : CatExtra.isNone x = true) :
+    x = CatalogRules.CatExtra.none := by
+  cases x
+  simp only [CatExtra.isNone, Bool.and_eq_true, Option.isNone_iff_eq_none] at h
+  simp only [CatalogRules.CatExtra.none, CatalogRules.CatExtra.mk.injEq]
+  simp [h]
 
 theorem PageOpts.eq_none (o : PageOpts) (h : PageOpts.isNone o = true) : o = PageOpts.none := by
   cases o
   simp only [PageOpts.isNone, Bool.and_eq_true, Option.isNone_iff_eq_none] at h
   simp only [PageOpts.none, PageOpts.mk.injEq]
-  simp [h]
+  simp [h, PageExtra.eq_none _ h.2]
 
 theorem CatOpts.eq_none (c : CatOpts) (h : CatOpts.isNone c = true) : c = CatOpts.none := by
   cases c
   simp only [CatOpts.isNone, Bool.and_eq_true, Option.isNone_iff_eq_none] at h
   simp only [CatOpts.none, CatOpts.mk.injEq]
-  simp [h]
+  simp [h, CatExtra.eq_none _ h.2]
 
 mutual
 /-- no page or template of the subtree carries an optional entry -/
@@ -857,9 +887,9 @@ theorem rendered_conforms_partial (d : Doc) (hok : d.ok = true) (hcat : CatOpts.
   have hcat := CatOpts.eq_none d.cat hcat
   have hnd : (d.rootId :: d.kids.ids).Nodup := by
     have := nodup_of_nodupB _ hok
-    simpa [Doc.ids, hcat, CatOpts.none, CatalogRules.optId] using this
+    simpa [Doc.ids, hcat, CatOpts.none, CatalogRules.CatExtra.none, CatalogRules.optId] using this
   have hg : d.graph = ((d.rootId, 0), nodeDict d.count d.kids none) :: d.kids.defs d.rootId := by
-    simp [Doc.graph, hcat, CatOpts.none, CatalogRules.optDef]
+    simp [Doc.graph, hcat, CatOpts.none, CatalogRules.CatExtra.none, CatalogRules.optDef]
   refine conforms_of_invariant _ shippedCtx (S d) (S_closed _ d hcat (sub_plain d hplain) ?_ ?_) _ _ S.cat
   · show Graph.lookup d.graph (d.rootId, 0) = _
     rw [hg]; simp [Graph.lookup]
